@@ -44,6 +44,9 @@ var delimConfigs = []delims{
 	{name: "custom-comment-only", l: "{{", r: "}}", cl: "/*", cr: "*/", ccustom: true},
 	{name: "long", l: "<?jet", r: "?>", cl: "<!--", cr: "-->", custom: true, ccustom: true},
 	{name: "long-right", l: "{{{", r: "}}}", cl: "{*", cr: "*}", custom: true},
+	{name: "right-begins-with-space", l: "<!--", r: " -->", cl: "{*", cr: "*}", custom: true},
+	{name: "right-begins-with-dash", l: "<%", r: "-%>", cl: "{*", cr: "*}", custom: true},
+	{name: "right-is-space-and-default", l: "{{", r: " }}", cl: "{*", cr: "*}", custom: true},
 	{name: "left-only", l: "<%", r: "}}", cl: "{*", cr: "*}", custom: true, oneSided: true, optL: "<%", optR: ""},
 	{name: "right-only", l: "{{", r: "%>", cl: "{*", cr: "*}", custom: true, oneSided: true, optL: "", optR: "%>"},
 	{name: "comment-left-only", l: "{{", r: "}}", cl: "/*", cr: "*}", ccustom: true, oneSided: true, optCL: "/*", optCR: ""},
@@ -160,6 +163,11 @@ func RunC02(env *sim.Env) {
 		env.Stat("probe:source_longer_than_64KiB", 1)
 	}
 	files[victim] = src
+	if strings.Contains(mutKind, "-cycle:two") {
+		kw := strings.SplitN(mutKind, "-", 2)[0]
+		files["/zcycle.jet"] = dc.l + kw + ` "` + victim + `"` + dc.r
+		names = append(names, "/zcycle.jet")
+	}
 
 	// ---- loader with a fault plan for referenced files
 	mem := jet.NewInMemLoader()
@@ -381,7 +389,13 @@ func minInt(a, b int) int {
 
 // groundTruth builds a source that is structurally wrong for certain.
 func groundTruth(t *sim.Tape, s string, d delims, victim string, names []string) (string, string, bool) {
-	switch t.Choose(9) {
+	switch t.Choose(11) {
+	case 9: // a template that extends or imports itself: an error, not an endless recursion
+		kw := []string{"extends", "import"}[t.Choose(2)]
+		return d.l + kw + ` "` + victim + `"` + d.r + s, kw + "-cycle:self", true
+	case 10: // ... or through a second template
+		kw := []string{"extends", "import"}[t.Choose(2)]
+		return d.l + kw + ` "/zcycle.jet"` + d.r + s, kw + "-cycle:two", true
 	case 8: // comment whose "closing" marker overlaps the opening one: {*} is {* followed by }, never closed
 		k := 0
 		for n := 1; n <= len(d.cl) && n <= len(d.cr); n++ {
